@@ -234,7 +234,7 @@ PROPERTIES['C17'] = {
 NOT_APPLICABLE = {
     'C04': 'fold_async*/try_fold_async*/for_each_concurrent*/try_for_each_concurrent* are deep async state machines: Kani lowers them to nested unions and CBMC did not finish symbolic execution of a single call on the EMPTY graph within 30 min (DESIGN.md section 2); the property is entirely about those calls.',
     'C07': 'failure handling lives in the try_for_each_concurrent*/try_fold_async* bodies (deep async, out of reach of CBMC here, DESIGN.md section 2).',
-    'C08': 'interruption handling of the fold/for_each calls is deep async (out of reach); the stream_interruptible clause has no harness yet.',
+    'C08': 'interruption handling of the fold/for_each calls is deep async (out of reach, DESIGN.md section 2); for the stream clause and for the ready-stream wrapper the schedulers consume, harnesses over the real interruptible crate were built (sint*, track*) but need 782 k program steps / 103 M clauses at 2 functions and end in solver out-of-memory.',
     'C10': 'the limit is enforced by StreamExt::for_each_concurrent inside the deep async bodies; there is no fn_graph code outside them to execute symbolically.',
     'C19': 'auto-trait membership (Send/Sync) of opaque types is decided by rustc\'s trait solver at type-check time: there is no execution, input or schedule to make symbolic and no SMT query whose verdict answers it.',
 }
